@@ -88,7 +88,7 @@ def finish(dst, meta):
             old = json.load(open(p))
         except Exception:
             old = {}
-    for k in ("needs_to_manifest", "source", "summary"):
+    for k in ("needs_to_manifest", "source", "summary", "initially_caught_by"):
         if k in old and k not in meta:
             meta[k] = old[k]
     with open(p, "w") as f:
